@@ -611,7 +611,7 @@ def run(ctx):
             if i % ctx.nshards != ctx.shard:
                 continue
             run_one(ctx, vocab, item, f'{ctx.seed}/sys/{i}', i)
-        n = ctx.pick(300, 2400)
+        n = ctx.pick(300, 1600)
         combos = [(st, fl) for st in ('shared', 'disjoint') for fl in ('experiment', 'substrate')]
         for i in range(n):
             if ctx.out_of_time():
